@@ -465,7 +465,9 @@ class Parallel2dGeometry(ParallelBeamGeometry):
         # Translate the absolute vectors by the given translation
         translation = np.asarray(kwargs.pop('translation', (0, 0)),
                                  dtype=float)
-        det_pos_init += translation
+        # Not in-place: `det_pos_init` may be an array owned by the caller
+        # (or by the geometry that is being sliced)
+        det_pos_init = det_pos_init + translation
 
         # Initialize stuff. Normalization of the detector axis happens in
         # the detector class. `check_bounds` is needed for both detector
@@ -693,8 +695,10 @@ class Parallel2dGeometry(ParallelBeamGeometry):
         apart = part.byaxis[0]
         dpart = part.byaxis[1]
 
+        # `self.det_pos_init` already includes the translation, the
+        # constructor expects the untranslated position
         return Parallel2dGeometry(apart, dpart,
-                                  det_pos_init=self.det_pos_init,
+                                  det_pos_init=self._det_pos_init_arg,
                                   det_axis_init=self._det_axis_init_arg,
                                   translation=self.translation)
 
@@ -839,7 +843,9 @@ class Parallel3dEulerGeometry(ParallelBeamGeometry):
         # Translate the absolute vectors by the given translation
         translation = np.asarray(kwargs.pop('translation', (0, 0, 0)),
                                  dtype=float)
-        det_pos_init += translation
+        # Not in-place: `det_pos_init` may be an array owned by the caller
+        # (or by the geometry that is being sliced)
+        det_pos_init = det_pos_init + translation
 
         # Initialize stuff. Normalization of the detector axis happens in
         # the detector class. `check_bounds` is needed for both detector
@@ -1236,7 +1242,9 @@ class Parallel3dAxisGeometry(ParallelBeamGeometry, AxisOrientedGeometry):
         # Translate the absolute vectors by the given translation
         translation = np.asarray(kwargs.pop('translation', (0, 0, 0)),
                                  dtype=float)
-        det_pos_init += translation
+        # Not in-place: `det_pos_init` may be an array owned by the caller
+        # (or by the geometry that is being sliced)
+        det_pos_init = det_pos_init + translation
 
         # Initialize stuff. Normalization of the detector axis happens in
         # the detector class. `check_bounds` is needed for both detector
